@@ -2,19 +2,22 @@ from common import COMMON_TB
 
 CFG = {
     "technique": "Go→Lean translation of the size/fee/dust arithmetic (regenerated every run) + Lean 4 theorems over the "
-                 "translated definitions + differential run of the real author with real signing",
-    "level_text": "All clauses of C07 are Lean theorems about the model of NewUnsignedTransaction for every output list, "
-                  "fee rate from the relay floor upward, coin list of key-spend P2PKH/P2WPKH/nested-P2WPKH/P2TR inputs, "
-                  "every well-formed change source, every input source that reports its total truthfully, and every "
-                  "admissible signature length. Sizes, fees and the dust rule are not hand-written: they are translated "
-                  "from the Go AST on every run and the theorems are re-checked against the translation. The loop model, "
-                  "the external btcd functions and the byte-accurate BIP-141 size model are tied to the code by a "
-                  "differential run in which every authored transaction is really signed, script-verified and measured.",
-    "level_note": "Trusted: Lean kernel; the translator (vxextract sizes) for the supported Go subset; the hand models of "
-                  "the loop of NewUnsignedTransaction, of makeInputSource (source fingerprint checked) and of the btcd "
-                  "externals wire.VarIntSerializeSize, TxOut.SerializeSize, mempool.IsDust/GetDustThreshold and the "
-                  "txscript predicates (all compared with the real functions on every run); int64 modelled as unbounded "
-                  "Int; compressed public keys only.",
+                 "translated definitions + differential run of the real author with real signing + wallet-level "
+                 "insufficient-funds oracle on a real wallet.Wallet (engine walletchain-tx)",
+    "level_text": "All clauses of C07 are Lean theorems about the model of NewUnsignedTransaction for every output list, fee "
+                  "rate from the relay floor upward, coin list of key-spend P2PKH/P2WPKH/nested-P2WPKH/P2TR inputs, well-formed "
+                  "change source, truthful input source (the wallet's makeInputSource / constantInputSource are such: "
+                  "C07_wallet_sources_offer) and admissible signature length. Sizes, fees and the dust rule are translated from "
+                  "the Go AST on every run and the theorems re-checked against the translation; loop model, btcd externals and "
+                  "BIP-141 size model are tied by a differential run that really signs, script-verifies and measures every "
+                  "authored transaction.",
+    "level_note": "Wallet level: engine walletchain-tx judges every err=insufficient of a real Wallet under automatic selection "
+                  "(four APIs, largest and random) on the harness ledger's eligible set: key "
+                  "createtx.insufficient-funds-although-covered (scenario second-pass). Trusted: Lean kernel; translator "
+                  "(vxextract sizes) for the supported Go subset; hand models of the loop, of makeInputSource (source "
+                  "fingerprint: C07_makeInputSource_shape) and of the btcd externals (var-int size, TxOut.SerializeSize, "
+                  "IsDust/GetDustThreshold, txscript predicates; compared with the real functions every run); int64 as "
+                  "unbounded Int; compressed public keys only.",
     "lean_props": ["BtcwVerif.Props.C07"],
     "engines": ["author", "walletchain-tx"],
     "extractors": [{"name": "sizes", "out": "SizesGen.lean"}],
@@ -25,6 +28,9 @@ CFG = {
         "wallet.makeInputSource/constantInputSource (tied by differential run; makeInputSource by source fingerprint)",
         "hand-modelled btcd externals BtcwVerif/Model/SizesExt.lean (var-int size, TxOut.SerializeSize, mempool.IsDust, "
         "GetDustThreshold, txscript predicates), each compared with the real function by engine author",
+        "wallet-level oracle (engine walletchain-tx): the eligible set is the harness ledger's (C01/C06 assumed), the fee of a "
+        "prefix comes from the real txsizes.EstimateVirtualSize / txrules.FeeForSerializeSize; largest-first: some descending "
+        "prefix covers outputs + its own fee, random: all positively yielding eligible coins together cover",
         "BIP-141 size model Author.realWeight, validated against blockchain.GetTransactionWeight of really signed "
         "transactions at the observed signature lengths",
     ],
